@@ -72,12 +72,18 @@ func runC09Race(ci interface{}, st *CaseStats) error {
 		}
 	}()
 	// which commit is the delete under test, and what happens to it
-	var armed int32 // 0 none, 1 landed-unknown, 2 lost-unknown
+	var rewrites int64 // commits of the repair that write a deletion record again
+	var armed int32    // 0 none, 1 landed-unknown, 2 lost-unknown
 	var armedKey atomic.Value
 	armedKey.Store("")
 	env.Shim.OnCommit = func(ci *CommitInfo) Decision {
 		// the client's delete of the armed key (not the repair's rewrite of an earlier one, not a compaction)
 		if string(ci.RawKey) != armedKey.Load().(string) {
+			for _, op := range ci.Ops {
+				if string(op.Val) == "tombstone" {
+					atomic.AddInt64(&rewrites, 1)
+				}
+			}
 			return Pass
 		}
 		for _, op := range ci.Ops {
@@ -88,6 +94,8 @@ func runC09Race(ci interface{}, st *CaseStats) error {
 				case 2:
 					return UncertainNotApplied
 				}
+				// the repair of this very key, already under way before the client has its answer
+				atomic.AddInt64(&rewrites, 1)
 			}
 		}
 		return Pass
@@ -150,6 +158,15 @@ func runC09Race(ci interface{}, st *CaseStats) error {
 	if e, _ := compactErr.Load().(string); e != "" {
 		st.Label("a-compaction-returned-an-error")
 	}
+	// the sequencer works through the revisions in order: once a write issued now is readable, every unknown-outcome
+	// delete before it has been queued for repair (an empty queue before that moment says nothing)
+	pr, err := env.B.Create(ctx, &proto.CreateRequest{Key: []byte(FullKey("r/pre-fence")), Value: []byte("p")})
+	if err != nil || !pr.Succeeded {
+		return fmt.Errorf("pre-fence: %v %v", pr, err)
+	}
+	if !WaitCommitted(env.B, pr.Header.Revision, 20*time.Second) {
+		return fmt.Errorf("the read revision did not reach %d in 20s (it is %d)", pr.Header.Revision, env.B.GetCurrentRevision())
+	}
 	// drain: the repair loop runs every few milliseconds
 	deadline := time.Now().Add(20 * time.Second)
 	for backend.RetryQueueLenForVerif(env.B) > 0 && time.Now().Before(deadline) {
@@ -200,7 +217,25 @@ func runC09Race(ci interface{}, st *CaseStats) error {
 		}
 	}
 	if missing > 0 {
-		return fmt.Errorf("%d of %d deletes that landed (answered 'outcome unknown') never produced a DELETE event although the repair queue is empty, e.g. %q — %d compactions ran meanwhile on %d goroutines", missing, len(landed), first, atomic.LoadInt64(&compactions), c.Compactors)
+		// what the store and the stream hold for the first such key
+		diag := ""
+		if all, derr := DumpAll(env.Eng.KV); derr == nil {
+			for _, rec := range all {
+				if len(rec.Key) < 13 {
+					continue
+				}
+				if uk, rev, e := shimCoder.Decode(rec.Key); e == nil && string(uk) == first {
+					diag += fmt.Sprintf(" [record rev=%d val=%q]", rev, trunc(rec.Val))
+				}
+			}
+		}
+		for _, e := range events {
+			if e.key == first {
+				diag += fmt.Sprintf(" [event %v @%d]", e.typ, e.rev)
+			}
+		}
+		diag += fmt.Sprintf(" [read revision %d, highest handed out >= %d; the repair committed %d deletion records again]", env.B.GetCurrentRevision(), fr.Header.Revision, atomic.LoadInt64(&rewrites))
+		return fmt.Errorf("(%s) %d of %d deletes that landed (answered 'outcome unknown') never produced a DELETE event although the repair queue is empty, e.g. %q — %d compactions ran meanwhile on %d goroutines", diag, missing, len(landed), first, atomic.LoadInt64(&compactions), c.Compactors)
 	}
 	for k := range live {
 		if deleted[k] {
@@ -211,8 +246,8 @@ func runC09Race(ci interface{}, st *CaseStats) error {
 	if err != nil {
 		return fmt.Errorf("final list: %v", err)
 	}
-	if len(r.Kvs) != len(live)+1 {
-		return fmt.Errorf("the store lists %d keys, %d deletes did not land (+ the fence)", len(r.Kvs), len(live))
+	if len(r.Kvs) != len(live)+2 {
+		return fmt.Errorf("the store lists %d keys, %d deletes did not land (+ the two fences)", len(r.Kvs), len(live))
 	}
 	st.Labelf("compactors:%d", c.Compactors)
 	st.Count("race_compactions", int(atomic.LoadInt64(&compactions)))
